@@ -421,7 +421,7 @@ def case_strategy(draw, tier):
                       else draw(st.integers(1, nreg))})
     case["cells"] = cells
     case["threept"] = False
-    case["family"] = draw(st.sampled_from([1, 1, 2])) if mode in ("identity", "eps") else 1
+    case["family"] = draw(st.sampled_from([1, 1, 2] + ([3] if phases == "OWG" else []))) if mode in ("identity", "eps") else 1
     if mode == "identity":
         case["threept"] = draw(st.booleans())
         # which keywords are written explicitly with the table's own values (possibly none: bare ENDSCALE)
@@ -519,13 +519,19 @@ def deck_text(case, family=1, endscale=False, arrays=None, hyst=False):
         # the SOF2/SOF3 rows added at the break-points of the other table carry interpolated relperms that can be
         # smaller than the default TOLCRIT (1e-6) next to a critical saturation; keep them mobile as in family I
         out += ["TOLCRIT", " 1.0E-12 /"]
-    if family == 1:
+    if family in (1, 3):
         if "W" in ph:
             out.append("SWOF")
             for ri, r in enumerate(regs):
                 out.append("/\n" if ri in dflt else table_text([[dec(r["sw"][i], 4), dec(r["krw"][i], 4), dec(r["krow"][i], 4),
                                         dec(r["pcow"][i], 3)] for i in range(len(r["sw"]))]))
-        if "G" in ph:
+        if "G" in ph and family == 3:
+            # the same gas-oil curves against the liquid saturation Sl = 1 - Sg (ascending)
+            out.append("SLGOF")
+            for ri, r in enumerate(regs):
+                out.append("/\n" if ri in dflt else table_text([[dec(Q - r["sg"][i], 4), dec(r["krg"][i], 4), dec(r["krog"][i], 4),
+                                        dec(r["pcog"][i], 3)] for i in reversed(range(len(r["sg"])))]))
+        elif "G" in ph:
             out.append("SGOF")
             for ri, r in enumerate(regs):
                 out.append("/\n" if ri in dflt else table_text([[dec(r["sg"][i], 4), dec(r["krg"][i], 4), dec(r["krog"][i], 4),
@@ -769,7 +775,7 @@ class C15(Check):
                     labels.append("pc:" + r[k])
             if r.get("copied"):
                 labels.append("region-copied")
-        labels.append("family:%s" % ("I+II" if case["mode"] == "unscaled" else "II" if case.get("family") == 2 else "I"))
+        labels.append("family:%s" % ("I+II+SLGOF" if case["mode"] == "unscaled" else "II" if case.get("family") == 2 else "I(SLGOF)" if case.get("family") == 3 else "I"))
         labels = sorted(set(labels))
         big = max(rows) >= 5
         if big:
@@ -964,7 +970,14 @@ class C15(Check):
         r = self.check_tables(case, rep2, pts, TOL_META, "family II")
         if r:
             return r
-        return self.compare_reports(case, rep1, rep2, pts, "family I vs family II")
+        r = self.compare_reports(case, rep1, rep2, pts, "family I vs family II")
+        if r or ph != "OWG":
+            return r
+        rep3 = self.run(ctx.P, deck_text(case, family=3), progs)
+        r = self.check_tables(case, rep3, pts, TOL_META, "family I with SLGOF")
+        if r:
+            return r
+        return self.compare_reports(case, rep1, rep3, pts, "SGOF vs SLGOF")
 
     def compare_reports(self, case, repa, repb, pts, who):
         ph = case["phases"]
